@@ -1385,6 +1385,262 @@ func scHostReentry(r *h.Rng) *prog {
 	return p
 }
 
+// bound functions made by a bound `bind` (Function.prototype.bind.bind(f, this, a…)): every bound function has its
+// own argument list (15.3.4.5.1), whatever was bound or called in between
+func scBindChain(r *h.Rng) *prog {
+	p := &prog{}
+	p.v("ff", "bb", "g1", "g2", "g3")
+	ff := m.Fn{Body: []m.N{m.Ret(m.Add(m.Add(m.Add(m.Str("n"), m.Get(m.Var("arguments"), "length")), m.Str(":")),
+		m.Add(m.Add(m.Add(m.GetE(m.Var("arguments"), m.Num(0)), m.Str(",")), m.Add(m.GetE(m.Var("arguments"), m.Num(1)), m.Str(","))), m.GetE(m.Var("arguments"), m.Num(2)))))}}
+	p.add(m.X(m.Asg("ff", ff.Expr())))
+	nb := r.Intn(3) // arguments bound by the outer bind (after the this value)
+	args := []m.N{m.Var("ff"), m.Null()}
+	for i := 0; i < nb; i++ {
+		args = append(args, m.Num(1+i))
+	}
+	p.add(m.X(m.Asg("bb", m.MCall(m.Get(m.Var("ff"), "bind"), "bind", args...))))
+	mk := func(base int) []m.N {
+		out := make([]m.N, 1+r.Intn(2))
+		for i := range out {
+			out[i] = m.Num(base + i)
+		}
+		return out
+	}
+	p.add(m.X(m.Asg("g1", m.CallV("bb", mk(20)...))), m.X(m.Asg("g2", m.CallV("bb", mk(30)...))))
+	if r.Bool() {
+		p.add(m.X(m.Asg("g3", m.CallV("bb", mk(40)...))), lg(m.CallV("g3")))
+	}
+	p.add(lg(m.CallV("g1")), lg(m.CallV("g2")), lg(m.CallV("g1", m.Num(9))), lg(m.CallV("g2")), lg(m.CallV("g1")))
+	// a bound function called with different arguments keeps its own bound ones
+	p.add(m.X(m.Asg("g3", m.MCall(m.Var("ff"), "bind", m.Null(), m.Num(7)))), lg(m.CallV("g3", m.Num(1))), lg(m.CallV("g3", m.Num(2), m.Num(3))), lg(m.CallV("g3")))
+	return p
+}
+
+// `for (var x = e in o)`: e is evaluated once, before o, whatever o has (12.6.4)
+func scForInInit(r *h.Rng) *prog {
+	p := &prog{}
+	p.v("o", "q", "n", "cnt", "w")
+	nk := r.Intn(4)
+	var ps []m.Prop
+	for _, k := range keyU[:nk] {
+		ps = append(ps, m.Prop{K: k, V: m.Num(1)})
+	}
+	var src m.N
+	switch r.Intn(5) {
+	case 0:
+		src = m.Null()
+	case 1:
+		src = m.Undef()
+	default:
+		src = m.Var("o")
+	}
+	// the initialiser counts its evaluations and redirects the object expression
+	p.decl("ini", m.Fn{Name: "ini", Body: []m.N{inc("n", 1), m.If(m.Var("q"), []m.N{m.X(m.Asg("o", m.Var("q")))}, nil), m.Ret(m.Add(m.Str("i"), m.Var("n")))}})
+	p.add(m.X(m.Asg("o", m.Obj(ps...))), m.X(m.Asg("n", m.Num(0))), m.X(m.Asg("cnt", m.Num(0))), m.X(m.Asg("w", m.Obj(m.Prop{K: "x", V: m.Str("wx")}))))
+	if r.Chance(30) {
+		p.add(m.X(m.Asg("q", m.Obj(m.Prop{K: "z", V: m.Num(1)}, m.Prop{K: "y", V: m.Num(2)}))))
+	}
+	loop := m.ForInInit("x", m.CallV("ini"), src, inc("cnt", 1), lg(m.Typeof(m.Var("x"))))
+	inWith := r.Chance(30)
+	body := []m.N{lg(m.Typeof(m.Var("x")))}
+	if inWith {
+		body = append(body, m.With(m.Var("w"), loop))
+	} else {
+		body = append(body, loop)
+	}
+	body = append(body, lg(m.Var("n")), lg(m.Var("cnt")), lg(m.Typeof(m.Var("x"))), lg(m.Get(m.Var("w"), "x")))
+	if r.Bool() {
+		p.decl("f", m.Fn{Name: "f", Vars: []string{"x"}, Body: append(body, m.Ret(m.Var("cnt")))})
+		p.add(lg(m.CallV("f")), lg(m.Typeof(m.Var("x"))))
+	} else {
+		p.v("x")
+		p.add(body...)
+	}
+	return p
+}
+
+// bindings made by eval code can be deleted, all others cannot (10.4.2, 10.5 configurableBindings; 11.4.1)
+func scEvalDelete(r *h.Rng) *prog {
+	p := &prog{}
+	p.v("gv", "w")
+	p.decl("gf", m.Fn{Name: "gf", Body: []m.N{m.Ret(m.Num(1))}})
+	ev := func(vars []string, decls []m.Decl, body ...m.N) m.N {
+		if r.Chance(35) {
+			return m.X(m.EvalI(vars, decls, body))
+		}
+		return m.X(m.EvalD(vars, decls, body))
+	}
+	probe := func(x string) []m.N {
+		return []m.N{lg(m.Typeof(m.Var(x))), lg(m.DelV(x)), lg(m.Typeof(m.Var(x)))}
+	}
+	// the code under test, run either as global code or as the body of a function with its own x / g
+	var body []m.N
+	name := []string{"x", "y", "gv", "gf", "lv", "g"}[r.Intn(6)]
+	switch r.Intn(6) {
+	case 0: // var in eval code
+		body = append(body, ev([]string{name}, nil, m.VarS(name, m.Num(r.Intn(5)+1))))
+	case 1: // function declaration in eval code
+		body = append(body, ev(nil, []m.Decl{{Name: name, F: m.Fn{Name: name, Body: []m.N{m.Ret(m.Num(2))}}}}, m.X(m.Num(0))))
+	case 2: // both, and a second eval that re-creates after a delete
+		body = append(body, ev([]string{name}, nil, m.VarS(name, m.Num(7))))
+		body = append(body, probe(name)...)
+		body = append(body, ev(nil, []m.Decl{{Name: name, F: m.Fn{Name: name, Body: []m.N{m.Ret(m.Num(3))}}}}, m.X(m.Num(0))))
+	case 3: // created by assignment to an unresolvable name: deletable property of the global object
+		body = append(body, m.X(m.Asg(name, m.Num(4))))
+	case 4: // eval inside with: the var goes to the variable environment, the with object keeps its own
+		body = append(body, m.X(m.Asg("w", m.Obj(m.Prop{K: name, V: m.Str("wx")}))),
+			m.With(m.Var("w"), ev([]string{name}, nil, m.VarS(name, m.Num(9))), lg(m.DelV(name)), lg(m.Typeof(m.Var(name)))),
+			lg(m.Get(m.Var("w"), name)))
+	default: // nothing made by eval: plain bindings stay
+	}
+	body = append(body, probe(name)...)
+	body = append(body, probe(name)...)
+	for _, x := range []string{"gv", "gf", "lv", "p"} {
+		if r.Chance(40) {
+			body = append(body, lg(m.DelV(x)), lg(m.Typeof(m.Var(x))))
+		}
+	}
+	if r.Bool() {
+		p.decl("f", m.Fn{Name: "f", Params: []string{"p"}, Vars: []string{"lv"}, Decls: []m.Decl{{Name: "g", F: m.Fn{Name: "g", Body: []m.N{m.Ret(m.Num(5))}}}},
+			Body: append(body, lg(m.DelV("arguments")), lg(m.DelV("f")), m.Ret(m.Typeof(m.Var(name))))})
+		p.add(lg(m.CallV("f", m.Num(1))), lg(m.Typeof(m.Var(name))), lg(m.DelV(name)), lg(m.Typeof(m.Var(name))))
+	} else {
+		p.v("lv")
+		p.add(body...)
+	}
+	p.add(lg(m.Del(m.This(), name)), lg(m.DelV("gv")), lg(m.DelV("gf")), lg(m.Typeof(m.Var("gf"))))
+	return p
+}
+
+// Object.defineProperty on an arguments object (10.6 [[DefineOwnProperty]]): a value goes through to the joined
+// parameter, writable:false ends the join; and read-only properties in general (8.12.4, 8.12.5)
+func scArgsDefine(r *h.Rng) *prog {
+	p := &prog{}
+	params := [][]string{{"a"}, {"a", "b"}, {"a", "b", "a"}, {"b", "a"}}[r.Intn(4)]
+	var body []m.N
+	args := m.Var("arguments")
+	report := func() {
+		body = append(body, lg(m.Var("a")), lg(m.Var("b")))
+		for i := 0; i <= len(params); i++ {
+			body = append(body, lg(m.GetE(args, m.Num(i))))
+		}
+	}
+	report()
+	for k := 2 + r.Intn(4); k > 0; k-- {
+		i := r.Intn(len(params) + 1)
+		switch r.Intn(7) {
+		case 0, 1:
+			body = append(body, m.X(m.DefRO(args, fmt.Sprint(i), m.Num(300+k))))
+		case 2:
+			body = append(body, m.X(m.DefNE(args, fmt.Sprint(i), m.Num(400+k))))
+		case 3:
+			body = append(body, m.X(m.SetE(args, m.Num(i), m.Num(700+k))))
+		case 4, 5:
+			body = append(body, m.X(m.Asg(pickS(r, []string{"a", "b"}), m.Num(900+k))))
+		default:
+			body = append(body, lg(m.DelE(args, m.Num(i))))
+		}
+		report()
+	}
+	body = append(body, m.X(m.Asg("a", m.Num(1000))), m.X(m.Asg("b", m.Num(2000))))
+	report()
+	body = append(body, m.X(m.Asg("cnt", m.Num(0))), m.ForIn(false, "k", args, inc("cnt", 1)), lg(m.Var("cnt")), m.Ret(m.Var("a")))
+	p.decl("f", m.Fn{Name: "f", Params: params, Vars: []string{"b", "k", "cnt"}, Body: body})
+	p.add(lg(m.CallV("f", nums(r, r.Intn(len(params)+2))...)))
+	// a plain object: puts on a read-only property are ignored, own or inherited; delete and redefinition lift it
+	p.v("o", "F", "c")
+	p.add(m.X(m.Asg("o", m.Obj(m.Prop{K: "x", V: m.Num(1)}))), m.X(m.DefRO(m.Var("o"), pickS(r, []string{"x", "y"}), m.Num(5))),
+		m.X(m.Asg("F", m.Fn{Body: []m.N{m.Ret0()}}.Expr())), m.X(m.Set(m.Var("F"), "prototype", m.Var("o"))), m.X(m.Asg("c", m.New(m.Var("F")))))
+	for k := 1 + r.Intn(4); k > 0; k-- {
+		key := pickS(r, []string{"x", "y"})
+		tgt := m.Var(pickS(r, []string{"o", "c"}))
+		switch r.Intn(5) {
+		case 0, 1:
+			p.add(m.X(m.Set(tgt, key, m.Num(50+k))))
+		case 2:
+			p.add(lg(m.Del(tgt, key)))
+		case 3:
+			p.add(m.X(m.DefNE(tgt, key, m.Num(60+k))))
+		default:
+			p.add(m.X(m.DefRO(tgt, key, m.Num(70+k))))
+		}
+		p.add(lg(m.Get(m.Var("o"), "x")), lg(m.Get(m.Var("o"), "y")), lg(m.Get(m.Var("c"), "x")), lg(m.Get(m.Var("c"), "y")))
+	}
+	p.v("k", "cnt")
+	p.add(m.X(m.Asg("cnt", m.Num(0))), m.ForIn(false, "k", m.Var("c"), inc("cnt", 1)), lg(m.Var("cnt")))
+	return p
+}
+
+// a function declaration over a name the global object already has (10.5 step 5.e): a configurable property is
+// reset to a plain binding, a fixed one that is read-only or not enumerable makes the declaration a TypeError
+func scGlobalRedeclare(r *h.Rng) *prog {
+	p := &prog{}
+	p.v("cnt", "k", "e", "base")
+	name := "q"
+	// the host puts enumerable functions of its own on the global object: counts are relative to the start
+	p.add(m.X(m.Asg("base", m.Num(0))), m.ForIn(false, "k", m.This(), inc("base", 1)))
+	how := r.Intn(8)
+	switch how {
+	case 0:
+		p.add(m.X(m.DefFix(m.This(), name, m.Num(1))))
+	case 1:
+		p.add(m.X(m.DefRO(m.This(), name, m.Num(1))))
+	case 2:
+		p.add(m.X(m.DefNE(m.This(), name, m.Num(1))))
+	case 3:
+		p.add(m.X(m.Asg(name, m.Num(1))))
+	case 4:
+		p.v(name)
+		p.add(m.X(m.Asg(name, m.Num(1))))
+	case 5:
+		p.decl(name, m.Fn{Name: name, Body: []m.N{m.Ret(m.Num(0))}})
+	case 6: // fixed, then an attempt to change it
+		p.add(m.X(m.DefFix(m.This(), name, m.Num(1))), m.Try([]m.N{m.X(m.DefFix(m.This(), name, m.Num(r.Intn(2)+1)))}, "e", []m.N{lg(m.Get(m.Var("e"), "name"))}, nil, true, false),
+			m.Try([]m.N{m.X(m.DefRO(m.This(), name, m.Num(1)))}, "e", []m.N{lg(m.Get(m.Var("e"), "name"))}, nil, true, false))
+	default:
+	}
+	count := func() []m.N {
+		return []m.N{m.X(m.Asg("cnt", m.Num(0))), m.ForIn(false, "k", m.This(), inc("cnt", 1)), lg(m.Sub(m.Var("cnt"), m.Var("base")))}
+	}
+	probe := func() []m.N {
+		out := []m.N{lg(m.Typeof(m.Var(name)))}
+		out = append(out, count()...)
+		out = append(out, m.X(m.Asg(name, m.Num(7))), lg(m.Typeof(m.Var(name))), lg(m.DelV(name)), lg(m.Typeof(m.Var(name))))
+		return out
+	}
+	decl := []m.Decl{{Name: name, F: m.Fn{Name: name, Body: []m.N{m.Ret(m.Num(2))}}}}
+	if r.Chance(25) {
+		decl = append([]m.Decl{{Name: "other", F: m.Fn{Name: "other", Body: []m.N{m.Ret(m.Num(3))}}}}, decl...)
+	}
+	var ev m.N
+	inFn := false
+	switch r.Intn(4) {
+	case 0: // direct eval in global code
+		ev = m.X(m.EvalD(nil, decl, []m.N{lg(m.Str("in"))}))
+	case 1: // direct eval in a function: its own variable environment, the global object is not involved
+		ev = m.X(m.EvalD(nil, decl, []m.N{lg(m.Str("in"))}))
+		inFn = true
+	default: // indirect eval, from global code or from a function
+		ev = m.X(m.EvalI(nil, decl, []m.N{lg(m.Str("in"))}))
+		inFn = r.Bool()
+	}
+	p.add(count()...)
+	attempt := m.Try([]m.N{ev, lg(m.Typeof(m.Var(name)))}, "e", []m.N{lg(m.Get(m.Var("e"), "name"))}, nil, true, false)
+	if inFn {
+		p.decl("f", m.Fn{Name: "f", Body: []m.N{attempt, m.Ret(m.Typeof(m.Var(name)))}})
+		p.add(lg(m.CallV("f")))
+	} else {
+		p.add(attempt)
+	}
+	p.add(lg(m.Typeof(m.Var("other"))))
+	p.add(probe()...)
+	if r.Bool() {
+		p.add(m.Try([]m.N{m.X(m.EvalI(nil, decl, []m.N{lg(m.Str("again"))}))}, "e", []m.N{lg(m.Get(m.Var("e"), "name"))}, nil, true, false))
+		p.add(probe()...)
+	}
+	return p
+}
+
 func init() {
 	fnScenarios = append(fnScenarios, []fnScenario{
 		{"with-lookup", scWithLookup}, {"with-closure", scWithClosure}, {"with-this", scWithThis}, {"with-var", scWithVar},
@@ -1393,5 +1649,6 @@ func init() {
 		{"forin-delete", scForInDelete}, {"forin-revisit", scForInRevisit}, {"forin-empty", scForInEmpty}, {"forin-with", scForInWith}, {"forin-value", scForInValue},
 		{"labels", scLabels}, {"dup-params", scDupParams}, {"order", scOrder},
 		{"label-capture", scLabelCapture}, {"eval-throw", scEvalThrow},
-		{"hoist-collide", scHoistCollide}, {"label-stale", scLabelStale}, {"host-reentry", scHostReentry}}...)
+		{"hoist-collide", scHoistCollide}, {"label-stale", scLabelStale}, {"host-reentry", scHostReentry},
+		{"bind-chain", scBindChain}, {"forin-init", scForInInit}, {"eval-delete", scEvalDelete}, {"args-define", scArgsDefine}, {"global-redeclare", scGlobalRedeclare}}...)
 }
